@@ -16,9 +16,9 @@ Definition in_cycle (s : state) : bool :=
 Ltac unfold_step H :=
   unfold do_start, do_pause, do_flush, do_stop, do_enqueue, do_release, do_setter, do_enq_insert,
     do_enq_retry, do_stop_ret, do_tick, do_loop_shutdown, do_loop_pause, do_loop_resume,
-    do_audit_check, do_audit_confirm, do_loop_cap, do_loop_flushtick, do_cycle_begin,
+    do_audit_check, do_audit_confirm, do_loop_unbusy, do_loop_cap, do_loop_flushtick, do_cycle_begin,
     do_cycle_raise, do_cycle_end, do_batch_start, do_cb_enter, do_cb_return,
-    do_batch_done, do_advance, insert_op in H.
+    do_batch_done, do_advance, insert_op, after_event in H.
 
 (* ------------------------------------------------------------------ list lemmas *)
 
